@@ -679,6 +679,16 @@ func main() {
 		exit = 1
 	}
 
+	// ---- determinism probe -------------------------------------------------
+	// A few run seeds of the sim layer are executed again in fresh processes at GOMAXPROCS 1, 4 and
+	// 16; event-log hash and violation signatures must agree (the full self-test is ./check selftest).
+	probeSeeds := 3
+	if tier == "thorough" {
+		probeSeeds = 12
+	}
+	probeSame, probeDiff := determinismProbe(probeSeeds)
+	nondet += probeDiff
+
 	// ---- trouble ----------------------------------------------------------
 	var troubles []string
 	for _, lt := range layers {
@@ -742,6 +752,7 @@ func main() {
 			"components_real":          pi.Real,
 			"components_stub":          pi.Stub,
 			"nondeterministic_replays": nondet,
+			"determinism_probe":        map[string]any{"seeds": probeSeeds, "processes_per_seed": 3, "gomaxprocs": []int{1, 4, 16}, "identical": probeSame, "different": probeDiff},
 			"violation_signatures":     order,
 			"harness_trouble":          len(troubles),
 		},
@@ -775,6 +786,57 @@ func main() {
 	}
 	os.RemoveAll(scratch)
 	os.Exit(exit)
+}
+
+// determinismProbe re-runs n generated plans three times each at different GOMAXPROCS.
+func determinismProbe(n int) (same, diff int) {
+	for i := 0; i < n; i++ {
+		seed := base*1_000_003 + uint64(900_000+i)
+		pf := filepath.Join(scratch, fmt.Sprintf("probe-%d.json", i))
+		cmd := harnessCmd("sim", "-verif.mode=gen", "-verif.base="+strconv.FormatUint(seed, 10), "-verif.out="+pf)
+		if cmd.Run() != nil {
+			continue
+		}
+		pl, err := plan.Load(pf)
+		if err != nil || pl.Mode == "plain" {
+			continue // plans that run outside the simulator have no schedule to compare
+		}
+		pl.Seed = seed
+		os.WriteFile(pf, pl.JSON(), 0o644)
+		var sigs []string
+		for _, g := range []string{"1", "4", "16"} {
+			of := filepath.Join(scratch, fmt.Sprintf("probe-%d-%s.json", i, g))
+			c := harnessCmd("sim", "-verif.mode=run", "-verif.plan="+pf, "-verif.out="+of)
+			c.Env = append(c.Env, "GOMAXPROCS="+g)
+			done := make(chan error, 1)
+			if c.Start() != nil {
+				continue
+			}
+			go func() { done <- c.Wait() }()
+			select {
+			case <-done:
+			case <-time.After(60 * time.Second):
+				c.Process.Kill()
+				<-done
+			}
+			b, _ := os.ReadFile(of)
+			var o plan.Outcome
+			json.Unmarshal(b, &o)
+			sg := o.Hash + "|" + o.Trouble
+			for _, v := range o.Violations {
+				sg += "|" + v.Sig()
+			}
+			sigs = append(sigs, sg)
+		}
+		ok := len(sigs) == 3 && sigs[0] == sigs[1] && sigs[1] == sigs[2]
+		if ok {
+			same++
+		} else {
+			diff++
+			fmt.Fprintf(os.Stderr, "verifrun: determinism probe: seed %d gave different outcomes: %q\n", seed, sigs)
+		}
+	}
+	return
 }
 
 func oneLine(s string, n int) string {
